@@ -6,6 +6,7 @@
 //! parsers returned); `obs` = what the real functions of /repo returned.
 #[path = "../../harness/src/rng.rs"]
 mod rng;
+mod snt;
 mod enc;
 mod gen;
 mod pg;
@@ -122,6 +123,58 @@ fn main() {
                 let res = run_case(&cfg, &rows, &mut net, &strings);
                 emit(&mut out, id, res, &cfg, &rows);
             }
+        }
+        Some("sentinel") => {
+            use std::io::Write as _;
+            out.write_all(snt::probe().as_bytes()).unwrap();
+        }
+        Some("defaults") => {
+            // what the configuration types hold when a section or field is omitted (one JSON line per item)
+            use std::fmt::Write as _;
+            let mut o = String::new();
+            let mut item = |k: &str, v: String| {
+                let _ = writeln!(o, "{{\"item\":\"{}\",\"value\":{:?}}}", k, v);
+            };
+            match serde_json::from_str::<deadpool_redis::sentinel::Config>("{}") {
+                Ok(c) => {
+                    item("sentinel.omitted.master_name", c.master_name.clone());
+                    item("sentinel.omitted.server_type", format!("{:?}", c.server_type));
+                    item("sentinel.omitted.urls", format!("{:?}", c.urls));
+                    item("sentinel.omitted.connections_is_none", format!("{}", c.connections.is_none()));
+                    item("sentinel.omitted.pool_is_none", format!("{}", c.pool.is_none()));
+                    item("sentinel.omitted.node_connection_info_is_none", format!("{}", c.node_connection_info.is_none()));
+                }
+                Err(e) => item("sentinel.omitted.error", format!("{}", e)),
+            }
+            let d = deadpool_redis::sentinel::Config::default();
+            item("sentinel.default.master_name", d.master_name.clone());
+            item("sentinel.default.server_type", format!("{:?}", d.server_type));
+            item("sentinel.default.urls", format!("{:?}", d.urls));
+            match serde_json::from_str::<deadpool_redis::cluster::Config>("{}") {
+                Ok(c) => {
+                    item("cluster.omitted.urls", format!("{:?}", c.urls));
+                    item("cluster.omitted.connections_is_none", format!("{}", c.connections.is_none()));
+                    item("cluster.omitted.pool_is_none", format!("{}", c.pool.is_none()));
+                    item("cluster.omitted.read_from_replicas", format!("{}", c.read_from_replicas));
+                }
+                Err(e) => item("cluster.omitted.error", format!("{}", e)),
+            }
+            match serde_json::from_str::<deadpool_redis::Config>("{}") {
+                Ok(c) => {
+                    item("redis.omitted.url", format!("{:?}", c.url));
+                    item("redis.omitted.connection_is_none", format!("{}", c.connection.is_none()));
+                    item("redis.omitted.pool_is_none", format!("{}", c.pool.is_none()));
+                }
+                Err(e) => item("redis.omitted.error", format!("{}", e)),
+            }
+            let d = deadpool_redis::Config::default();
+            item("redis.default.url", format!("{:?}", d.url));
+            item("redis.default.connection_is_none", format!("{}", d.connection.is_none()));
+            let d = deadpool_redis::cluster::Config::default();
+            item("cluster.default.urls", format!("{:?}", d.urls));
+            item("cluster.default.read_from_replicas", format!("{}", d.read_from_replicas));
+            use std::io::Write as _;
+            out.write_all(o.as_bytes()).unwrap();
         }
         _ => {
             eprintln!("usage: h6_config gen <seed> <n> <profile> | replay <file>");
